@@ -3,8 +3,9 @@ import BoxoModel.C17.Track
 # C17 — Block-size estimation equals the exact serialized directory size
 
 Property theorems only (helpers: `BoxoModel/C17/{Sizes,Lemmas,Track}.lean`; model `BoxoModel/C17/Model.lean`,
-which composes the C11 dag-pb encoder and the C18 UnixFS `Data` encoder).  `varintLen` and
-`ModePermsToUnixPerms` are the regenerated `Gen.C17` definitions.
+which composes the C11 dag-pb encoder and the C18 UnixFS `Data` encoder).  `varintLen`,
+`ModePermsToUnixPerms`, `linkSerializedSize` and `dataFieldSerializedSize` are the regenerated `Gen.C17`
+definitions (64-bit arithmetic; `link_bridge` / `data_bridge` show that it does not overflow).
 
 The model follows the tree WITH the fix "unixfs/io: take the Data field size of the block-size estimate
 from the node's Data"; the two defects of the unfixed code are recorded at the end.
@@ -17,9 +18,9 @@ theorem c17_varint (v : Nat) (h : v < 2 ^ 64) : varintLen v = (Varint.encode v).
   varintLen_eq v h
 
 /-- **linkSerializedSize** is the number of bytes the link occupies in the encoded PBNode, for every
-name, CID, and Tsize < 2^63 (link message shorter than 2^64 bytes). -/
+name, CID, and Tsize < 2^63 (link message shorter than 2^61 bytes: the Go code computes in 64-bit `int`). -/
 theorem c17_link (name cid : Bytes) (tsize : Nat) (hs : tsize < 2 ^ 63)
-    (hlen : (encodeMsg (C11.linkFields ⟨name, cid, tsize⟩)).length < 2 ^ 64) :
+    (hlen : (encodeMsg (C11.linkFields ⟨name, cid, tsize⟩)).length < 2 ^ 61) :
     linkSerializedSize name cid tsize = (Field.msg 2 (C11.linkFields ⟨name, cid, tsize⟩)).encode.length :=
   linkSerializedSize_eq ⟨name, cid, tsize⟩ hs hlen
 
@@ -35,12 +36,13 @@ theorem c17_data (mode : BitVec 32) (t : C18.Time) (hv : t.valid) :
 /-- **Exactness of a computed estimate**: for ANY set of links that passed `checkLink` and ANY Data,
 what `computeEstimatedSizeAndTotalLinks` computes in block mode is the length of the serialized block. -/
 theorem c17_exact (ls : List C11.Link) (data : Option Bytes) (hc : ∀ l ∈ ls, C11.checkLink l = true)
-    (hlen : (C11.encodePB ls data).length < 2 ^ 64) :
+    (hlen : (C11.encodePB ls data).length < 2 ^ 61) :
     blockEst ls data = (C11.encodePB ls data).length :=
   blockEst_eq_rawLen ls data hc hlen
 
 /-- directories reachable from `NewBasicDirectory(WithSizeEstimationMode(m), WithStat(mode, mtime))` by
-AddChild (new names and replacements, including the rejected Tsize > MaxInt64 path), RemoveChild,
+AddChild (new names and replacements, including the rejected Tsize > MaxInt64 and maxLinks-reached paths),
+RemoveChild, SetMaxLinks,
 reload from the node (`NewBasicDirectoryFromNode(node.Copy())`, global mode `g`), SetStat and
 SetSizeEstimationMode, in any order -/
 inductive Reachable (g : EstMode) : Dir → Prop
@@ -50,6 +52,7 @@ inductive Reachable (g : EstMode) : Dir → Prop
   | reload {d} : Reachable g d → Reachable g (reload g d)
   | setStat {d} (mode : BitVec 32) (t : C18.Time) : Reachable g d → Reachable g (setStat d mode t)
   | setEstMode {d} (m : EstMode) : Reachable g d → Reachable g (setEstMode d m)
+  | setMaxLinks {d} (n : Int) : Reachable g d → Reachable g (setMaxLinks d n)
 
 theorem c17_reachable_inv (g : EstMode) (d : Dir) (h : Reachable g d) : Inv d := by
   induction h with
@@ -59,12 +62,13 @@ theorem c17_reachable_inv (g : EstMode) (d : Dir) (h : Reachable g d) : Inv d :=
   | reload _ ih => exact reload_inv g _ ih
   | setStat mode t _ ih => exact setStat_inv _ mode t ih
   | setEstMode m _ ih => exact setEstMode_inv _ m ih
+  | setMaxLinks n _ ih => exact setMaxLinks_inv _ n ih
 
 /-- **Incremental exactness.** Through every such history, whenever the directory is in block mode the
 tracked `estimatedSize` equals the byte length of the block that would be serialized (block shorter than
-2^64 bytes), and `totalLinks` equals the number of links. -/
+2^61 bytes), and `totalLinks` equals the number of links. -/
 theorem c17_incremental (g : EstMode) (d : Dir) (h : Reachable g d) (hb : d.estMode = .block)
-    (hlen : rawLen d < 2 ^ 64) :
+    (hlen : rawLen d < 2 ^ 61) :
     d.est = (rawLen d : Nat) ∧ d.total = d.links.length := by
   have hi := c17_reachable_inv g d h
   exact ⟨by rw [hi.est hb, c17_exact d.links d.data hi.chk hlen]; rfl, hi.total⟩
